@@ -181,6 +181,116 @@ class Lower:
         self.bad('statement not in the subset', st)
 
 
+def lower_next(sp, stmts, whole):
+    """[candidates; copy_if(specs..., is_base(other, &spec)); nexts = best(candidates); void* next; if-chain; if (spec.info->next) *spec.info->next = next]"""
+    def bad(msg, node):
+        raise mc.Unsupported('build_dispatch_tables (assigning next): %s: %s' % (msg, mc.show(node)))
+    have = set()
+    size = ('call', ('member', ('id', 'nexts'), 'size', False), [])
+
+    def c(x):
+        if x[0] == 'un' and x[1] == '!':
+            return '(NNot %s)' % c(x[2])
+        if x[0] == 'bin' and x[2] == size and x[3][0] == 'num' and 'nexts' in have:
+            if x[1] == '==':
+                return '(NSizeIs %d)' % x[3][1]
+            if x[1] == '>':
+                return '(NSizeGt %d)' % x[3][1]
+            if x[1] == '>=' and x[3][1] >= 1:
+                return '(NSizeGt %d)' % (x[3][1] - 1)
+        if x == ('call', ('member', ('id', 'nexts'), 'empty', False), []) and 'nexts' in have:
+            return 'NEmpty'
+        bad('condition not in the subset', x)
+
+    def val(r, env):
+        if r == ('member', ('member', ('id', 'm'), 'info', False), 'not_implemented', True):
+            return 'VNotImplemented'
+        if r == ('member', ('member', ('id', 'm'), 'info', False), 'ambiguous', True):
+            return 'VAmbiguous'
+        front = ('call', ('member', ('id', 'nexts'), 'front', False), [])
+        first = ('index', ('id', 'nexts'), ('num', 0))
+        for f in (front, first):
+            if r == ('member', ('member', f, 'info', True), 'pf', True):
+                return 'VDefPf'
+        if r[0] == 'member' and r[2] == 'pf' and r[3] and r[1][0] == 'id' and env.get(r[1][1]) == 'info_of_front':
+            return 'VDefPf'
+        bad('value assigned to next is not in the subset', r)
+
+    def seq(sts, env):
+        out = []
+        for st in nonempty(sts):
+            t = s1(st, env)
+            if t != 'NSkip':
+                out.append(t)
+        if not out:
+            return 'NSkip'
+        r = out[-1]
+        for t in reversed(out[:-1]):
+            r = '(NSeq %s\n  %s)' % (t, r)
+        return r
+
+    def s1(st, env):
+        k = st[0]
+        if k == 'block':
+            return seq(st[1], dict(env))
+        if k == 'decl' and len(st[2]) == 1:
+            name, init = st[2][0]
+            if name == 'candidates' and init is None:
+                return 'NSkip'
+            if name == 'nexts' and init == ('call', ('id', 'best'), [('id', 'candidates')]) and 'candidates' in have:
+                have.add('nexts')
+                return 'NBest'
+            if name == 'next' and init is None and re.sub(r'\s', '', st[1]) == 'void*':
+                return 'NSkip'
+            front = ('call', ('member', ('id', 'nexts'), 'front', False), [])
+            if init in (('member', front, 'info', True), ('member', ('index', ('id', 'nexts'), ('num', 0)), 'info', True)) and 'nexts' in have:
+                env[name] = 'info_of_front'
+                return 'NSkip'
+            bad('declaration not in the subset', st)
+        if k == 'expr':
+            e = st[1]
+            want = ('call', ('id', 'std::copy_if'),
+                    [('call', ('member', ('id', 'specs'), 'begin', False), []), ('call', ('member', ('id', 'specs'), 'end', False), []),
+                     ('call', ('id', 'std::back_inserter'), [('id', 'candidates')]),
+                     ('lambda', ['&', sp], ['other'], ('block', [('return', ('call', ('id', 'is_base'), [('id', 'other'), ('un', '&', ('id', sp))]))]))])
+            want2 = want[:2] + (want[2][:3] + [('lambda', ['&'], ['other'], want[2][3][3])],)
+            if e in (want, want2):
+                have.add('candidates')
+                return 'NCandidates'
+            if e[0] == 'assign' and e[1] == '=' and e[2] == ('id', 'next'):
+                return '(NSetNext %s)' % val(e[3], env)
+            bad('expression statement not in the subset', st)
+        if k == 'rangefor' and isinstance(st[1], str) and st[2] == ('member', ('id', 'm'), 'specs', False):
+            # for (const definition& other : m.specs) { if (is_base(&other, &spec)) candidates.push_back(&other); }
+            o = st[1]
+            push = ('expr', ('call', ('member', ('id', 'candidates'), 'push_back', False), [('un', '&', ('id', o))]))
+            test = ('call', ('id', 'is_base'), [('un', '&', ('id', o)), ('un', '&', ('id', sp))])
+            body = nonempty(st[3][1] if st[3][0] == 'block' else [st[3]])
+            if body in ([('if', False, test, ('block', [push]), None)], [('if', False, test, push, None)]):
+                have.add('candidates')
+                have.add('direct')
+                return 'NCandidates'
+            bad('loop over m.specs inside the next loop is not the candidate filter', st)
+        if k == 'if' and not st[1]:
+            slot = ('member', ('member', ('id', sp), 'info', False), 'next', True)
+            store = ('expr', ('assign', '=', ('un', '*', slot), ('id', 'next')))
+            if st[2] in (slot, ('bin', '!=', slot, ('null',))) and st[4] is None and nonempty(st[3][1] if st[3][0] == 'block' else [st[3]]) == [store]:
+                return 'NStore'
+            return '(NIf %s\n  %s\n  %s)' % (c(st[2]), s1(st[3], dict(env)), s1(st[4], dict(env)) if st[4] else 'NSkip')
+        bad('statement not in the subset', st)
+
+    # `specs` must be all the definitions of the method, in catalog order
+    allspecs = repr(('call', ('id', 'std::transform'),
+                     [('call', ('member', ('member', ('id', 'm'), 'specs', False), 'begin', False), []),
+                      ('call', ('member', ('member', ('id', 'm'), 'specs', False), 'end', False), []),
+                      ('call', ('id', 'std::back_inserter'), [('id', 'specs')]),
+                      ('lambda', [], ['spec'], ('block', [('return', ('un', '&', ('id', 'spec')))]))]))
+    text = seq(stmts, {})
+    if 'direct' not in have and allspecs not in whole:
+        raise mc.Unsupported('build_dispatch_tables: `specs` is no longer filled with the address of every definition of the method, in order')
+    return text
+
+
 def main():
     try:
         src = mc.strip_comments(open(SRC).read())
@@ -211,11 +321,31 @@ def main():
         m = re.search(r'build_dispatch_table\(\s*m\s*,\s*dims\s*-\s*1\s*,\s*groups\.end\(\)\s*-\s*1\s*,\s*all\s*,\s*true\s*\)\s*;', bts)
         if not m:
             raise mc.Unsupported('build_dispatch_tables no longer starts the recursion with build_dispatch_table(m, dims - 1, groups.end() - 1, all, true)')
+        # ---- "assigning next": the loop over m.specs in build_dispatch_tables that ends by storing through spec.info->next
+        params2, body2, _ = mc.find_function(src, r'\bvoid\s+compiler<Policy>::build_dispatch_tables\b', 'build_dispatch_tables')
+        ast2 = mc.parse_function_body(mc.drop_trace(body2), ('vector',))
+        found = []
+
+        def walk(n):
+            if isinstance(n, tuple):
+                if n and n[0] == 'rangefor' and n[2] == ('member', ('id', 'm'), 'specs', False) and "'next'" in repr(n) and 'best' in repr(n):
+                    found.append(n)
+                    return
+                for x in n:
+                    walk(x)
+            elif isinstance(n, list):
+                for x in n:
+                    walk(x)
+        walk(ast2)
+        if len(found) != 1 or not isinstance(found[0][1], str):
+            raise mc.Unsupported('build_dispatch_tables: expected exactly one loop over m.specs that assigns next, found %d' % len(found))
+        next_text = lower_next(found[0][1], nonempty(found[0][3][1]), repr(ast2))
     except mc.Unsupported as e:
         die(str(e))
     out = ('(* GENERATED by translators/tablebuild.py from %s - do not edit.\n'
            '   The body of the loop over the groups in compiler<Policy>::build_dispatch_table, in the language of Model/MiniTab.v. *)\n'
-           'From Y2 Require Import Model.MiniTab.\n\nDefinition gen_tab_body : tstmt :=\n %s.\n' % (SRC, text))
+           'From Y2 Require Import Model.MiniTab.\n\nDefinition gen_tab_body : tstmt :=\n %s.\n\n'
+           '(* the body of the loop over m.specs that assigns next, in build_dispatch_tables *)\nDefinition gen_next_body : nstmt :=\n %s.\n' % (SRC, text, next_text))
     vlib.write_if_changed(os.path.join(vlib.COQ, 'Gen', 'GenTab.v'), out)
 
 
